@@ -12,12 +12,14 @@ import (
 // Ablation: when gmqtt's decoder refuses a well-formed packet, the packet is
 // simplified feature by feature (one greedy pass) to find the features without
 // which it is accepted. Those feature names become the "field=" parameter of the
-// signature, so that one root cause gives one signature.
+// signature, so that one root cause gives one signature. Content-level causes
+// (a code point class in a string, non-text bytes in binary data) are tried first
+// and are decisive: they name the cause alone.
 
 type transform struct {
-	name   string
-	parent string // skipped when the transform named parent was essential
-	apply  func(p *mqttx.Packet) bool
+	name     string
+	decisive bool // content-level cause: if essential, it alone names the cause
+	apply    func(p *mqttx.Packet) bool
 }
 
 func mapStrings(p *mqttx.Packet, f func(rune) rune) bool {
@@ -47,7 +49,7 @@ func propTransforms(which string, get func(p *mqttx.Packet) *mqttx.Props) []tran
 	var ts []transform
 	for _, bf := range []string{"CorrelationData", "AuthData"} {
 		bf := bf
-		ts = append(ts, transform{name: which + "." + bf + ".binary", apply: func(p *mqttx.Packet) bool {
+		ts = append(ts, transform{name: which + "." + bf + ".binary", decisive: true, apply: func(p *mqttx.Packet) bool {
 			ps := get(p)
 			if ps == nil {
 				return false
@@ -67,7 +69,7 @@ func propTransforms(which string, get func(p *mqttx.Packet) *mqttx.Props) []tran
 		if strings.HasPrefix(name, "Has") {
 			continue
 		}
-		ts = append(ts, transform{name: which + "." + name, parent: which + "." + name + ".binary", apply: func(p *mqttx.Packet) bool {
+		ts = append(ts, transform{name: which + "." + name, apply: func(p *mqttx.Packet) bool {
 			ps := get(p)
 			if ps == nil {
 				return false
@@ -90,7 +92,7 @@ func propTransforms(which string, get func(p *mqttx.Packet) *mqttx.Props) []tran
 
 func allTransforms() []transform {
 	ts := []transform{
-		{name: "str.U+FFFD", apply: func(p *mqttx.Packet) bool {
+		{name: "str.U+FFFD", decisive: true, apply: func(p *mqttx.Packet) bool {
 			return mapStrings(p, func(c rune) rune {
 				if c == utf8.RuneError {
 					return 'x'
@@ -98,7 +100,7 @@ func allTransforms() []transform {
 				return c
 			})
 		}},
-		{name: "str.nonascii", apply: func(p *mqttx.Packet) bool {
+		{name: "str.nonascii", decisive: true, apply: func(p *mqttx.Packet) bool {
 			return mapStrings(p, func(c rune) rune {
 				if c > 0x7E {
 					return 'x'
@@ -106,7 +108,7 @@ func allTransforms() []transform {
 				return c
 			})
 		}},
-		{name: "Password.binary", apply: func(p *mqttx.Packet) bool {
+		{name: "Password.binary", decisive: true, apply: func(p *mqttx.Packet) bool {
 			if len(p.Password) == 0 || isText(p.Password) {
 				return false
 			}
@@ -124,7 +126,7 @@ func allTransforms() []transform {
 			p.WillFlag, p.WillQoS, p.WillRetain, p.WillTopic, p.WillPayload, p.WillProps = false, 0, false, "", nil, nil
 			return true
 		}},
-		transform{name: "Password", parent: "Password.binary", apply: func(p *mqttx.Packet) bool {
+		transform{name: "Password", apply: func(p *mqttx.Packet) bool {
 			if !p.HasPassword && len(p.Password) == 0 {
 				return false
 			}
@@ -240,16 +242,13 @@ var transforms = allTransforms()
 // ablate returns the essential features of a rejected well-formed packet.
 // rejected(q) must report: (valid) q is still well-formed for the independent
 // decoder, (rej) gmqtt still refuses it.
-func ablate(p *mqttx.Packet, rejected func(q *mqttx.Packet) (valid, rej bool)) string {
+func ablate(p *mqttx.Packet, rejected func(q *mqttx.Packet) (valid, rej bool)) (cause string, decisive bool) {
 	cur := clonePacket(p)
 	if valid, rej := rejected(cur); valid && !rej {
-		return "encoding-form" // the canonical encoding of the same value is accepted
+		return "encoding-form", false // the canonical encoding of the same value is accepted
 	}
 	essential := map[string]bool{}
 	for _, t := range transforms {
-		if t.parent != "" && essential[t.parent] {
-			continue
-		}
 		q := clonePacket(cur)
 		if !t.apply(q) {
 			continue
@@ -260,11 +259,14 @@ func ablate(p *mqttx.Packet, rejected func(q *mqttx.Packet) (valid, rej bool)) s
 		case rej:
 			cur = q
 		default:
+			if t.decisive {
+				return t.name, true
+			}
 			essential[t.name] = true
 		}
 	}
 	if len(essential) == 0 {
-		return "base"
+		return "base", false
 	}
 	names := make([]string, 0, len(essential))
 	for n := range essential {
@@ -274,5 +276,5 @@ func ablate(p *mqttx.Packet, rejected func(q *mqttx.Packet) (valid, rej bool)) s
 	if len(names) > 3 {
 		names = append(names[:3], "more")
 	}
-	return strings.Join(names, "+")
+	return strings.Join(names, "+"), false
 }
